@@ -181,7 +181,12 @@ def step (s : Unit) (line : String) : Unit × String :=
     | some fn, some u, some a =>
       if fn == "esl_gam_Sample" then (s, "bad-op") else
       match Gen.dispatch fn (u :: a) with
-      | some v => (s, s!"ok {hex64 v.toBits}")
+      | some v =>
+        -- followed by the arguments the translated sampler hands to its primitive draw (e.g. the shape `1/tau` of the Gamma variate)
+        let extra := match Gen.dispatchDraw fn a with
+          | some l => String.join (l.map fun (d : Float) => "," ++ hex64 d.toBits)
+          | none => ""
+        (s, s!"ok {hex64 v.toBits}{extra}")
       | none => (s, "unmodelled")
     | _, _, _ => (s, "bad-op")
   | "mixsampleof" :: _ =>
@@ -198,9 +203,9 @@ def step (s : Unit) (line : String) : Unit × String :=
     | _, _ => (s, "bad-op")
   | "gamsample" :: _ =>
     match argList? ws "t", (arg? ws "a").bind parseBitsList with
-    | some ts, some [mu, lambda, _tau] =>
+    | some ts, some [mu, lambda, tau] =>
       match Mix.gamSample mu lambda ts with
-      | some v => (s, s!"ok {hex64 v.toBits}")
+      | some v => (s, s!"ok {hex64 v.toBits},{hex64 tau.toBits}")      -- `esl_rnd_Gamma(r, tau)`: the shape drawn with
       | none => (s, "hang")
     | _, _ => (s, "bad-op")
   | "bracketlim" :: _ =>
